@@ -329,6 +329,7 @@ func init() {
 		run: func(c *Ctx) {
 			checkC05(c, budget(c.Tier, 600, 60000))
 			checkC05Exotic(c, budget(c.Tier, 400, 20000))
+			checkC05SharedStorage(c, budget(c.Tier, 100, 3000))
 			checkC05LateBelow(c, budget(c.Tier, 200, 8000))
 			p := defaultProfile
 			p.Env = 0.4
